@@ -6,6 +6,7 @@ import ElvisVerif.Lemmas.TcpRelData2
 import ElvisVerif.Lemmas.TcpRelLoss
 import ElvisVerif.Lemmas.TcpRelRough
 import ElvisVerif.Lemmas.TcpRelStmt
+import ElvisVerif.Lemmas.TcpRelNone
 import ElvisVerif.Props.C03FinData
 /-!
 # C03 — release after both applications close, from ANY reachable state of the closed system (closes after quiescence)
@@ -227,7 +228,8 @@ example : closeDataCheck = true := by decide
     schedule).  As `c03_close_with_data_queued_partial`, but: either retransmission queue may hold data the other side has
     received and acknowledged by a pure ACK still waiting on its one-shot queue (the steady states a fair exchange passes
     through: B need not be idle, it only has nothing UNSENT), and
-    A's unsent text is only bounded by `65535·n` bytes for some `n` (H31 apart).  After `close A` the closer **keeps
+    A's unsent text is only bounded by `65535·n` bytes for some `n ≥ 1` (H31 apart; NO unsent text is allowed: then `close()`
+    itself numbers the FIN, behind the data in flight, `close_data_none`).  After `close A` the closer **keeps
     segmentizing in FIN-WAIT-1**: in every exchange phase it cuts exactly what the window admits — the segments its
     ESTABLISHED twin would cut (`Tcb.segments_twin_more`) — and processes B's pure ACKs exactly as in ESTABLISHED
     (`is_fin_acked` is false while `fin_pending`, `Tcb.ackList_twin`), so the close-free twin system, for which all
@@ -242,7 +244,7 @@ theorem c03_close_with_any_data_queued_partial (ia ib : Seq) (ma mb : U16) (simu
     (h0 : Sys.run {} [.open .A ia ma, if simultaneous then .open .B ib mb else .listen .B ib mb] = .ok (sys0, rs))
     (hrun : PlainRun sys0 s) (h31 : RoomH s) (ta tb : Tcb) (hs : Steady s ta tb)
     (tbt : tb.outgoing.text = [])
-    (hne : ta.outgoing.text ≠ []) (n : Nat) (hlen : ta.outgoing.text.length ≤ 65535 * n) :
+    (n : Nat) (hn : 1 ≤ n) (hlen : ta.outgoing.text.length ≤ 65535 * n) :
     ∃ s1 ta1 tb1 s2, closeDataFrontN n s = .ok s1 ∧ FinRun s s1 ∧ s1.a.tcb = some ta1 ∧ s1.b.tcb = some tb1 ∧
       ta1.state = .FinWait2 ∧ tb1.state = .CloseWait ∧ RestX .A ta1 tb1 ∧ RestX .B tb1 ta1 ∧
       s1.b.delivered = s1.a.submitted ∧ s1.a.submitted = s.a.submitted ∧
@@ -250,8 +252,19 @@ theorem c03_close_with_any_data_queued_partial (ia ib : Seq) (ma mb : U16) (simu
       s2.b.delivered = s2.a.submitted ∧ s2.a.delivered = s2.b.submitted ∧
       s2.a.submitted = s.a.submitted ∧ s2.b.submitted = s.b.submitted := by
   have hg := good_of_reach ia ib ma mb simultaneous sys0 s rs hma hmb h0 hrun h31
-  obtain ⟨s1, ta1, tb1, s2, e1, r1, h1a, h1b, sa, sb, ca, cb, u1, u2, u3, e12, e2, r2, na, nb, v1, v2, v3, v4⟩ :=
-    close_data_any n s hg ta tb hs ⟨tbt⟩ hne hlen
+  have hmain : ∃ s1 ta1 tb1 s2, closeDataFrontN n s = .ok s1 ∧ FinRun s s1 ∧
+      (s1.side .A).tcb = some ta1 ∧ (s1.side .B).tcb = some tb1 ∧
+      ta1.state = .FinWait2 ∧ tb1.state = .CloseWait ∧ RestX .A ta1 tb1 ∧ RestX .B tb1 ta1 ∧
+      (s1.side .A).submitted = (s.side .A).submitted ∧ (s1.side .B).submitted = (s.side .B).submitted ∧
+      (s1.side .A).delivered = (s.side .A).delivered ∧
+      closeDataRoundN n s = .ok s2 ∧ releaseTail s1 = .ok s2 ∧ FinRun s1 s2 ∧
+      (s2.side .A).tcb = none ∧ (s2.side .B).tcb = none ∧
+      (s2.side .A).submitted = (s.side .A).submitted ∧ (s2.side .B).submitted = (s.side .B).submitted ∧
+      (s2.side .A).delivered = (s.side .A).delivered ∧ (s2.side .B).delivered = (s1.side .B).delivered := by
+    by_cases hne : ta.outgoing.text = []
+    · exact close_data_none n hn s hg ta tb hs ⟨tbt⟩ hne
+    · exact close_data_any n s hg ta tb hs ⟨tbt⟩ hne hlen
+  obtain ⟨s1, ta1, tb1, s2, e1, r1, h1a, h1b, sa, sb, ca, cb, u1, u2, u3, e12, e2, r2, na, nb, v1, v2, v3, v4⟩ := hmain
   have hfr : FinRun sys0 s1 := (FinRun.of_plain hrun).trans r1
   have hlt : C01.Lt31 s1 := by
     have := h31.lt31
@@ -300,7 +313,7 @@ def closeDataCheck2 : Bool :=
 example : ∃ sys0 s : Sys, ∃ rs, ∃ ta tb : Tcb,
     Sys.run {} [.open .A 1000 1500, if false then .open .B 5000 1500 else .listen .B 5000 1500] = .ok (sys0, rs) ∧
     PlainRun sys0 s ∧ RoomH s ∧ Steady s ta tb ∧
-    tb.outgoing.text = [] ∧ ta.outgoing.text ≠ [] ∧ ta.outgoing.text.length ≤ 65535 * 1 ∧
+    tb.outgoing.text = [] ∧ ta.outgoing.text.length ≤ 65535 * 1 ∧
     ta.outgoing.retransmit.length = 1 ∧ tb.outgoing.oneshot.length = 1 := by
   have key : closeDataCheck2 = true := by decide
   unfold closeDataCheck2 at key
@@ -315,11 +328,36 @@ example : ∃ sys0 s : Sys, ∃ rs, ∃ ta tb : Tcb,
         simp only [Bool.and_eq_true, List.isEmpty_iff, beq_iff_eq] at k1
         obtain ⟨⟨⟨⟨⟨⟨⟨x1, x2⟩, x3⟩, x4⟩, x5⟩, x6⟩, x7⟩, x8⟩ := k1
         exact ⟨sys0, s, rs, ta, tb, e0, plainRunB_sound _ _ _ e1, ⟨r1, r2⟩,
-          ⟨hta, htb, steadyXB_sound _ _ x1, steadyXB_sound _ _ x2⟩, x5, by rw [x6]; simp,
+          ⟨hta, htb, steadyXB_sound _ _ x1, steadyXB_sound _ _ x2⟩, x5,
           by rw [x6]; decide, x7, x8⟩
       · simp at k1
     · simp at key
   · simp at key
+
+/-- the same state without the last write: nothing unsent, [1, 2, 3] in flight (delivered and read, the ACK still on B's
+    one-shot queue): `close()` numbers the FIN at once; `n = 1` -/
+def closeDataCheck3 : Bool :=
+  match Sys.run {} [.open .A 1000 1500, .listen .B 5000 1500] with
+  | .ok (sys0, _) =>
+    match plainRunB sys0 (dataOps2.take 10) with
+    | some s =>
+      (match s.a.tcb, s.b.tcb with
+        | some ta, some tb => steadyXB ta tb && steadyXB tb ta && tb.outgoing.text.isEmpty && ta.outgoing.text.isEmpty &&
+            ta.outgoing.retransmit.length == 1 && tb.outgoing.oneshot.length == 1
+        | _, _ => false) &&
+      (match closeDataFrontN 1 s with
+        | .ok s1 =>
+          (match s1.a.tcb, s1.b.tcb with
+            | some ta1, some tb1 => ta1.state == .FinWait2 && tb1.state == .CloseWait
+            | _, _ => false) && s1.b.delivered == [1, 2, 3] &&
+          (match releaseTail s1 with
+            | .ok s2 => s2.a.tcb.isNone && s2.b.tcb.isNone && s2.b.delivered == [1, 2, 3] && s2.a.delivered == []
+            | .error _ => false)
+        | .error _ => false)
+    | none => false
+  | .error _ => false
+
+example : closeDataCheck3 = true := by decide
 
 /-! ## close issued after loss, with data in flight and unsent text queued -/
 
